@@ -1155,6 +1155,13 @@ example : parseExpr "(a" = .error ⟨"Unmatched parenthesis", 1⟩ := by kernel_
 example : parseExpr "f(x)" = .ok (.function (.user "f") [v "x"]) := by kernel_rfl
 example : parseExpr "a ** " = .error ⟨"Syntax error", 5⟩ := by kernel_rfl
 example : parseExpr "1e5" = .error ⟨"Syntax error", 2⟩ := by kernel_rfl
+-- the token patterns are compiled without `re.ASCII` (flags 32 in `pinnedRegexes`): `\d` is every Unicode decimal digit, read
+-- with its decimal value (as `float()` does), `\w` every Unicode word character; `[A-Za-z_]` stays ASCII
+example : parseExpr "aé٣(١٢.٥e+٣, x²)" = .ok (.function (.user "aé٣") [.number 12500, v "x²"]) := by kernel_rfl
+example : parseExpr "٣" = .ok (.number 3) := by kernel_rfl
+example : parseExpr "1٣ + 𝟘𝟡" = .ok (.binary .add (.number 13) (.number 9)) := by kernel_rfl
+example : parseExpr "é" = .error ⟨"Syntax error", 1⟩ := by kernel_rfl
+example : parseExpr "1²" = .error ⟨"Syntax error", 2⟩ := by kernel_rfl
 
 /-- the backtracking cases of the string / bracket patterns -/
 example : parseExpr "'abc\\'" = .ok (.string "abc\\") := by kernel_rfl
